@@ -74,6 +74,15 @@ def pin_gen(name, obs, checks, qmod, **kw):
     return j
 
 
+def promo_gen(name, obs, checks, qmod, **kw):
+    """Mode C: TLC-enumerated promotion situations (Gen_Promo.tla): captures of rooks holding rights, checks along the back rank, pins from behind; every move played."""
+    j = {"type": "gen", "name": name, "gen_spec": "Gen_Promo", "driver": "board", "spec": "Trace_Board", "checks": checks,
+         "args": {"common": {"obs": ",".join(obs), "gen-play": "all"}},
+         "params": {"quick": {"gencfg": {"mod": qmod, "rem": 0}, "workers": 8}, "thorough": {"gencfg": {"mod": 2, "rem": 0}, "workers": 16, "xmx": "10g", "timeout": 3600}}}
+    j.update(kw)
+    return j
+
+
 def mate_gen(name, obs, checks, **kw):
     """Mode C: TLC-enumerated three- and four-piece endings (Gen_Mate.tla): mates, stalemates, checks, clock 99/100."""
     j = {"type": "gen", "name": name, "gen_spec": "Gen_Mate", "driver": "board", "spec": "Trace_Board", "checks": checks,
@@ -99,6 +108,7 @@ PROPS = {
         "rule": "states visited by seeded histories (corpus, curated, 960/DFRC starts, constructed builder states; random walks, full subtrees below curated roots); an observation is non-trivial when the position has at least one legal move",
         "assumptions": BOARD_ASSUME,
         "jobs": [
+            promo_gen("promotion-cases", ["gen"], ["C01"], 40, seed_offset=71),
             pin_gen("pin-cases", ["gen"], ["C01"], 20, seed_offset=41),
             ep_gen("ep-cases", ["gen"], ["C01"], 50, seed_offset=3),
             castle_gen("castling-cases", ["gen"], ["C01"], 40),
@@ -111,6 +121,7 @@ PROPS = {
         "rule": "transitions (position, legal move, successor) recorded along seeded histories; every legal move of every curated root and of the first 2 roots' successors is played",
         "assumptions": BOARD_ASSUME,
         "jobs": [
+            promo_gen("promotion-cases", ["acc"], ["C02"], 40, seed_offset=73),
             ep_gen("ep-cases", ["acc"], ["C02"], 50, seed_offset=17),
             castle_gen("castling-cases", ["acc"], ["C02"], 40, seed_offset=13),
             chess_model("model-play", ["WellFormed"], ["SuccOK"], MCQ, MCT),
@@ -121,6 +132,7 @@ PROPS = {
         "rule": "every logged state after reset / play / null move; rebuild through the builder must be == ; transposition pairs",
         "assumptions": BOARD_ASSUME,
         "jobs": [
+            promo_gen("promotion-cases", ["rebuild"], ["C03", "C09"], 60, seed_offset=79),
             pin_gen("pin-cases", [], ["C03"], 20, seed_offset=43),
             check_gen("check-geometries", [], ["C03"], 40, seed_offset=5),
             ep_gen("ep-cases", ["rebuild"], ["C03", "C09"], 50, seed_offset=23),
@@ -133,6 +145,7 @@ PROPS = {
         "rule": "all 64*64*7 move values swept through is_legal on every visited state; non-trivial = state with a legal move",
         "assumptions": BOARD_ASSUME,
         "jobs": [
+            promo_gen("promotion-cases", ["islegal"], ["C04"], 80, seed_offset=83),
             pin_gen("pin-cases", ["islegal"], ["C04"], 30, seed_offset=47),
             ep_gen("ep-cases", ["islegal"], ["C04"], 80, seed_offset=31),
             castle_gen("castling-cases", ["islegal"], ["C04"], 60, seed_offset=29),
@@ -153,6 +166,7 @@ PROPS = {
         "rule": "hash / hash_without_ep of every logged state against boards freshly built from the same position by text and builder routes with other clocks and without ep; transposition pairs",
         "assumptions": BOARD_ASSUME,
         "jobs": [
+            promo_gen("promotion-cases", ["fresh"], ["C10"], 60, seed_offset=89),
             chess_model("model-hash", ["HashPure", "FreshEqual"], [], dict(MCQ, setters=1), dict(MCT, setters=1)),
             parse_job("texts", "parse", ["C10"], {"bases": 60, "random": 100, "edits": 20}, {"bases": 4000, "random": 10000, "edits": 40}, sample_kinds=["parse"]),
             board_job("hash", ["fresh"], ["C10"], {"histories": 700, "subtrees": 260, "deep": 1, "transpositions": 200}, {"histories": 50000, "subtrees": 400, "deep": 30, "transpositions": 6000}, sample_kinds=["fresh", "pair", "null"]),
@@ -191,6 +205,7 @@ PROPS = {
         "rule": "all 64*64*7 move values through try_play on a clone of every visited state; play() on all accepted plus sampled rejected values; refused moves inside histories",
         "assumptions": BOARD_ASSUME,
         "jobs": [
+            promo_gen("promotion-cases", ["tryplay"], ["C15"], 120, seed_offset=97),
             castle_gen("castling-cases", ["tryplay"], ["C15"], 120, seed_offset=61),
             ep_gen("ep-cases", ["tryplay"], ["C15"], 120, seed_offset=59),
             chess_model("model-tryplay", ["TryPlayOK", "IsLegalOK"], ["SuccOK"], dict(MCQ, sweep=1), dict(MCT, sweep=1)),
@@ -209,6 +224,7 @@ PROPS = {
         "rule": "SAN/UCI writer output and reader round trip for every legal move of visited states; reader queries: mutated canonical SAN, long and partial spellings",
         "assumptions": BOARD_ASSUME,
         "jobs": [
+            promo_gen("promotion-cases", ["san", "sanread"], ["C20"], 120, seed_offset=101),
             chess_model("model-san", ["SanCanonical", "SanImplOK"], [], dict(MCQ, max_roots=30), dict(MCT, depth=1)),
             board_job("san", ["san", "sanread"], ["C20"], {"histories": 120, "subtrees": 30, "roots-file": "roots/san.sfen"}, {"histories": 30000, "subtrees": 400, "deep": 5, "roots-file": "roots/san.sfen"}, sample_kinds=["san", "sanread"]),
         ],
